@@ -46,6 +46,7 @@ type dirCase struct {
 	RootKind   string   `json:"root_kind"` // dir | symlink | file
 	IgnoreDirs []string `json:"ignore_dirs"`
 	SizeMax    int      `json:"size_max"`
+	LargeFiles []string `json:"large_files,omitempty"`
 }
 
 var namePool = []string{"a", "b", "src", "lib", "main.go", "x.txt", "README.md", "vendor", "node_modules", ".git", ".hg",
@@ -191,8 +192,12 @@ func genIgnoreFile(r *gen.Rand, root *node) []byte {
 func genDirCase(r *gen.Rand, op string) dirCase {
 	c := dirCase{Op: op, RootKind: "dir"}
 	c.SizeMax = 1 << 20
-	if r.Chance(1, 4) {
+	if r.Chance(1, 3) {
 		c.SizeMax = r.Range(8, 40)
+		if r.Chance(2, 3) { // large-file whitelist (doublestar patterns, last match wins, ! negates)
+			c.LargeFiles = gen.Pick(r, [][]string{{"*.txt"}, {"**/*.go"}, {"**"}, {"**"}, {"**/*.txt", "!x.txt"}, {"**", "!**/*.md"}, {"src/**", "lib/*"}, {"*"}, {"*"},
+				{"**/build", "README.md"}})
+		}
 	}
 	switch r.Intn(6) {
 	case 0:
@@ -530,9 +535,9 @@ func oracleDir(c dirCase) []odoc {
 	return out
 }
 
-func oracleStored(payload []byte, sizeMax int) string {
+func oracleStored(payload []byte, sizeMax int, allowLarge bool) string {
 	switch {
-	case len(payload) > sizeMax:
+	case len(payload) > sizeMax && !allowLarge:
 		return "!large"
 	case len(payload) == 0:
 		return "b-"
@@ -642,8 +647,30 @@ func (e *env) runDir(c dirCase) {
 		idx := e.tmp("idx")
 		defer os.RemoveAll(idx)
 		resp := e.drv.call(map[string]any{"op": "index", "dir": rootPath, "index_dir": idx, "ignore_dirs": c.IgnoreDirs,
-			"size_max": c.SizeMax, "name": "repo"})
-		in := fmt.Sprintf("dir %s %d %s %s", hexList(c.IgnoreDirs), c.SizeMax, hexs(rootPath), tree.String())
+			"size_max": c.SizeMax, "name": "repo", "large_files": c.LargeFiles})
+		// Options.IgnoreSizeMax (doublestar) is a parameter of model and oracle: the names it whitelists
+		allow := map[string]bool{}
+		var allowNames []string
+		{
+			lo := index.Options{LargeFiles: c.LargeFiles}
+			var paths []string
+			collectPaths(c.Root, "", &paths)
+			paths = append(paths, rootPath)
+			for _, p := range paths {
+				if lo.IgnoreSizeMax(p) {
+					allow[p] = true
+					allowNames = append(allowNames, p)
+				}
+			}
+		}
+		in := fmt.Sprintf("dir %s %d %s %s %s", hexList(c.IgnoreDirs), c.SizeMax, hexList(allowNames), hexs(rootPath), tree.String())
+		if c.RootKind == "dir" {
+			for _, d := range oracleDir(c) {
+				if allow[d.name] && len(d.payload) > c.SizeMax {
+					e.w.Count("dir-whitelisted-large-docs", 1)
+				}
+			}
+		}
 		goV, key := "", ""
 		cls, docsS := "ok", "-"
 		var impl []string
@@ -666,7 +693,7 @@ func (e *env) runDir(c dirCase) {
 		if goV == "" && c.RootKind == "dir" {
 			var want []string
 			for _, d := range oracleDir(c) {
-				want = append(want, hexs(d.name)+":"+oracleStored(d.payload, c.SizeMax))
+				want = append(want, hexs(d.name)+":"+oracleStored(d.payload, c.SizeMax, allow[d.name]))
 			}
 			sort.Strings(want)
 			if strings.Join(want, ",") != strings.Join(impl, ",") {
@@ -1016,7 +1043,7 @@ func (e *env) runArch(c archCase) {
 					continue
 				}
 				if nm := oracleStrip(m.Name, c.Strip); nm != "" {
-					want = append(want, hexs(nm)+":"+oracleStored(m.Data, c.SizeMax))
+					want = append(want, hexs(nm)+":"+oracleStored(m.Data, c.SizeMax, false))
 				}
 			}
 			sort.Strings(want)
@@ -1192,7 +1219,12 @@ func main() {
 	}
 	// end to end: real indexArg / archive.Index, shards read back
 	for i := 0; i < f.N(50, 400); i++ {
-		e.runDir(genDirCase(r, "dir"))
+		c := genDirCase(r, "dir")
+		if i%4 == 3 { // a size limit most files exceed, with a whitelist most of them match
+			c.SizeMax = r.Range(8, 24)
+			c.LargeFiles = gen.Pick(r, [][]string{{"**"}, {"*", "**/*.go"}, {"**", "!**/*.md"}, {"**/*.txt", "*"}})
+		}
+		e.runDir(c)
 	}
 	for i := 0; i < f.N(60, 500); i++ {
 		e.runArch(genArchCase(r, "arch"))
